@@ -9,11 +9,11 @@ CHECKS = {
    note="Trusted: h/rfc (independent of /repo); only frames the workloads elicit are judged. The fd-based Ethernet link is exercised by C07."),
  "C07": dict(level="exploration", ref="DESIGN.md §3 C07",
    technique="child-process isolation with on-disk witness: structure-aware mutated frames, exhaustive small-scope fragment sequences and noise are injected into a real stack; process death (panic site) and logical liveness probes in virtual time are the oracle; fd-based link over a socketpair; concurrent barrage under the race detector",
-   text="Each batch of frames is written to disk and each frame index logged before injection, so a crash names its input. After every batch the stack must answer one echo request, accept a new TCP connection with its data readable, and deliver a UDP datagram (virtual time, fresh ports, queues drained first). The fd-based link is driven with runt and hostile Ethernet frames; its close callback and an echo probe are observed.",
+   text="Each batch of frames is written to disk and each frame index logged before injection, so a crash names its input. After every batch the stack must answer one echo request, accept a new TCP connection with its data readable, and deliver a UDP datagram (virtual time, fresh ports, queues drained first, 1.5 virtual seconds after the batch so that timers armed by hostile input have fired). Two established connections with unacknowledged data are held during each batch: one receives in-window hostile segments, a quiet one is addressed only by ICMP errors (incl. fragmentation-needed with boundary next-hop MTUs). The fd-based link is driven with runt and hostile Ethernet frames; its close callback and an echo probe are observed.",
    note="Trusted: corpus/mutators in h/c07; a panic whose innermost repository frame lies under /repo is the violation; watchdog expiry is inconclusive."),
  "C09": dict(level="exploration", ref="DESIGN.md §3 C09",
-   technique="runtime reference-model monitor: every inbound packet of a full cross product is attributed by unique payload to the socket that received it and compared with an independent specificity matcher; TCP SYNs judged by SYN-ACK / reset counting",
-   text="PRNG-built sets of up to 10 UDP/TCP sockets (wildcard, specific, interface-bound, address+interface, connected with/without interface, listeners) on two interfaces with open/close and address removal, then all (interface x destination x port x source x source port) packets are injected and every socket is read after each one.",
+   technique="runtime reference-model monitor: every inbound packet of a full cross product is attributed by unique payload to the socket that received it and compared with an independent specificity matcher; TCP SYNs judged by SYN-ACK / reset counting; racing phase under the race detector with logically stamped open/close/inject events",
+   text="PRNG-built sets of up to 10 UDP/TCP sockets (wildcard, specific, interface-bound, address+interface, connected with/without interface, listeners) on two interfaces with open/close and address removal, then all (interface x destination x port x source x source port) packets are injected and every socket is read after each one. Racing phase: sockets are opened, drained and closed by two goroutines while a third injects uniquely numbered datagrams; at-most-once, right-address and not-after-close are judged from logical stamps, race reports in stack/, udp/, ports/ are violations.",
    note="Trusted: the reference matcher in h/c09. Known finding: a removed address stays served while a connected socket references it."),
  "C11": dict(level="exploration", ref="DESIGN.md §3 C11",
    technique="runtime monitor with self-identifying datagrams (sender, counter, length, pattern): Read results checked for integrity, arrival order, at-most-once and true sender; every successful Write paired with exactly one emitted packet decoded by the independent codec; concurrent readers under the race detector",
@@ -78,8 +78,8 @@ CHECKS = {
    text="For small programs of Lock/TryLock/Unlock every interleaving at the granularity of the mutex's atomic operations is enumerated on the real code; a deadlock is 'no enabled goroutine' (logical), mutual exclusion is an occupancy counter, TryLock's clause is judged when no other step overlapped. Larger programs are sampled (capped DFS, random priorities) and stress-run under -race with seeded delays at the same points.",
    note="Trusted: the controller's enabledness rule (receive enabled iff a token is queued), add-only hooks in pkg/tmutex. Load+Swap of Lock's re-check are one controlled step."),
  "C19": dict(level="exploration", ref="DESIGN.md §3 C19",
-   technique="stress under the race detector with seeded delays at the algorithm's atomic operations; porcupine on recorded Assert/Clear/Fetch histories; state-based lost-wake-up verdict; hook monitor + plain-store canary for touches after Done",
-   text="The real Sleeper/Waker (real gopark/commitSleep/goready) is driven by 1 fetcher and 1-8 asserters with delays injected at the verif points; each history is checked by porcupine against the asserted-flag specification; a lost wake-up is concluded from state once every Assert has returned; after Done the sleeper is overwritten with plain stores so any later touch is a race report, and a hook monitor flags a waker that reaches an enqueue step on a sleeper whose Done has returned.",
+   technique="stress under the race detector with seeded delays at the algorithm's atomic operations; porcupine on recorded Assert/Clear/Fetch histories; state-based lost-wake-up verdict; hook monitor + plain-store canary for touches after Done; controlled mode: DFS over decision sequences at the 19 schedule points with simulated park/ready",
+   text="The real Sleeper/Waker (real gopark/commitSleep/goready) is driven by 1 fetcher and 1-8 asserters with delays injected at the verif points; each history is checked by porcupine against the asserted-flag specification; a lost wake-up is concluded from state once every Assert has returned; after Done the sleeper is overwritten with plain stores so any later touch is a race report, and a hook monitor flags a waker that reaches an enqueue step on a sleeper whose Done has returned. Controlled mode: nine small programs are enumerated (exhaustively or up to a cap) with one goroutine running at a time; double or stray goready, lost wake-up (deadlock with a waker still asserted) and non-linearizable histories are violations.",
    note="Trusted: the specification in h/c19 (strict for single-asserter wakers), race detector semantics for sync/atomic. Known finding: enqueueAssertedWaker reads waitingG after Done returned."),
 
  "C14": dict(level="exploration", ref="DESIGN.md §3 C14",
@@ -107,7 +107,7 @@ m = {
    {"name":"wire+tcpx","path":"h/wire, h/tcpx","serves_properties":["C01","C02","C14"],"kind_free_text":"harness link endpoint, adversarial two-stack wire, TCP scenario runner with position-coded payloads"},
    {"name":"rawpeer","path":"h/rawpeer","serves_properties":["C03","C04","C05"],"kind_free_text":"scripted raw TCP peer over the harness link"},
    {"name":"vt","path":"h/vt","serves_properties":["C01","C02","C03","C04","C05","C08"],"kind_free_text":"virtual-time substrate: testing/synctest bubble under go1.26.8"},
-   {"name":"sched","path":"h/sched","serves_properties":["C18"],"kind_free_text":"schedule controller: DFS over decision sequences at verif schedule points"},
+   {"name":"sched","path":"h/sched","serves_properties":["C18","C19"],"kind_free_text":"schedule controller: DFS over decision sequences at verif schedule points"},
    {"name":"hist","path":"h/hist","serves_properties":["C10","C17","C18","C19"],"kind_free_text":"history recorder + porcupine v1.3.0"},
  ],
  "checks": [],
